@@ -1013,6 +1013,32 @@ def discharge(F, A, s):
     return None
 
 
+_RET_IV = {}
+
+
+def return_interval(F, name):
+    """interval of the integer return value of a local function, joined over its return blocks; None when unknown (recursion, non-integer)"""
+    if name in _RET_IV:
+        return _RET_IV[name]
+    _RET_IV[name] = None          # recursion guard
+    try:
+        A = Analyzer(F, name)
+        if int_range(A.B.local_ty(0)) is None:
+            return None
+        iv = A.intervals()
+        out = None
+        for bi, bl in enumerate(A.blocks):
+            if bl["t"][0] != "ret" or bi not in iv.entry:
+                continue
+            st = iv.transfer(iv.entry[bi], {"s": bl["s"], "t": ["goto", 0]})
+            v = st.get(0) or int_range(A.B.local_ty(0))
+            out = v if out is None else (min(out[0], v[0]), max(out[1], v[1]))
+        _RET_IV[name] = out
+    except Exception:
+        _RET_IV[name] = None
+    return _RET_IV[name]
+
+
 def int_range(ty):
     m = re.fullmatch(r"(u|i)(8|16|32|64|128|size)", ty or "")
     if not m:
@@ -1218,8 +1244,59 @@ class Intervals:
                     r = (0, 2 ** 63 - 1)
                 elif re.search(r"num::<impl (i\d+|isize)>::(abs|unsigned_abs)$", p):
                     r = (0, r[1])
+                elif t[1]["f"].get("local") and p in self.A.F.bodies:
+                    # a function of the analysed crates: the interval of its return value over all its paths (parameters unconstrained)
+                    rr = return_interval(self.A.F, p)
+                    if rr is not None and r[0] <= rr[0] and rr[1] <= r[1]:
+                        r = rr
                 st[l] = r
         return st
+
+    def refine(self, st, bi, s):
+        """the state on the edge bi -> s of a switch: comparisons of an integer local with a constant that the edge establishes narrow its interval"""
+        facts = self.A.edge_facts().get((bi, s))
+        if not facts:
+            return st
+        # only edges that are the sole way into s may narrow (otherwise the join below would have to know the edge)
+        out = None
+        for f in facts:
+            if f[0] != "cmp":
+                continue
+            op, a, b2 = f[1], f[2], f[3]
+            if a[0] == "c" and b2[0] == "l":
+                a, b2, op = b2, a, FLIP.get(op, op)
+            if not (a[0] == "l" and b2[0] == "c" and isinstance(b2[1], int)):
+                continue
+            l, k = a[1], b2[1]
+            # the test reads a copy of the local: the local itself must not be written in the testing block (conservative)
+            bl = self.b["blocks"][bi]
+            if any(x[0] == "A" and x[1][0] == l for x in bl["s"]):
+                continue
+            cur = (out or st).get(l) or self.rng(self.ty_of_local(l))
+            if cur is None:
+                continue
+            lo, hi = cur
+            if op == "<":
+                hi = min(hi, k - 1)
+            elif op == "<=":
+                hi = min(hi, k)
+            elif op == ">":
+                lo = max(lo, k + 1)
+            elif op == ">=":
+                lo = max(lo, k)
+            elif op == "==":
+                lo, hi = max(lo, k), min(hi, k)
+            elif op == "!=":
+                if lo == k:
+                    lo += 1
+                if hi == k:
+                    hi -= 1
+            if lo > hi:
+                continue      # infeasible edge: keep the unrefined state (sound)
+            if out is None:
+                out = dict(st)
+            out[l] = (lo, hi)
+        return out if out is not None else st
 
     def solve(self):
         blocks = self.b["blocks"]
@@ -1235,10 +1312,11 @@ class Intervals:
         while work:
             bi = work.pop()
             visits[bi] += 1
-            out = self.transfer(self.entry[bi], blocks[bi])
+            out0 = self.transfer(self.entry[bi], blocks[bi])
             for s in mirutil.normal_successors(blocks[bi]["t"]):
                 if s >= n:
                     continue
+                out = self.refine(out0, bi, s) if blocks[bi]["t"][0] == "switch" else out0
                 old = self.entry.get(s)
                 if old is None:
                     self.entry[s] = dict(out)
